@@ -29,9 +29,16 @@ def item_lit(it, cg=None):
 
 
 def param_lit(p):
-    cps = clist([c10.spec_lit(dict(cp, ignore=cp.get("ignore", []), illegal=cp.get("illegal", []))) for cp in p["cps"]])
-    xs = clist([clist([cnat(j) for j in x["cps"]]) for x in p["crosses"]])
     cg = p.get("cg_options")
+
+    def eff_cp(cp):
+        d = dict(cp, ignore=cp.get("ignore", []), illegal=cp.get("illegal", []))
+        if cp["kind"] == "auto" and cp.get("auto_bin_max") is None:
+            # not set on the coverpoint: the covergroup's, else the default 64
+            d["auto_bin_max"] = (cg or {}).get("auto_bin_max") or 64
+        return d
+    cps = clist([c10.spec_lit(eff_cp(cp)) for cp in p["cps"]])
+    xs = clist([clist([cnat(j) for j in x["cps"]]) for x in p["crosses"]])
     items = clist([item_lit(cp, cg) for cp in p["cps"]] + [item_lit(x, cg) for x in p["crosses"]])
     return "(mkP12 %s %s %s)" % (cps, xs, items)
 
@@ -70,7 +77,10 @@ def gen_param(rnd, base=None):
         p = {"cps": cps, "crosses": crosses}
         if rnd.random() < 0.4:
             # covergroup-level options: they cascade to every coverpoint / cross that does not set its own
-            p["cg_options"] = {"at_least": rnd.choice([None, 2, 3]), "weight": rnd.choice([None, 2, 3])}
+            p["cg_options"] = {"at_least": rnd.choice([None, 2, 3]), "weight": rnd.choice([None, 2, 3]), "auto_bin_max": rnd.choice([None, 2, 3, 5])}
+            for cp in cps:
+                if cp["kind"] == "auto" and rnd.random() < 0.6:
+                    cp["auto_bin_max"] = None
             for it in cps + crosses:
                 if rnd.random() < 0.6:
                     it["at_least"] = None
